@@ -121,6 +121,30 @@ func c16Child(c *mon.Child) {
 				}
 			}
 		}
+		// a definition must not depend on the caller's rule map after New returned: build one from a map we keep,
+		// edit the map, then serialise the definition
+		if rs := g.ToLexer(); true {
+			var def2 *lexer.StatefulDefinition
+			var err2 error
+			mon.Guard(func() { def2, err2 = lexer.New(rs) })
+			if def2 != nil && err2 == nil {
+				for st := range rs {
+					for i := range rs[st] {
+						rs[st][i].Pattern = "EDITED"
+						rs[st][i].Name = "Edited"
+					}
+					rs[st] = append(rs[st], lexer.Rule{Name: "Added", Pattern: "added"})
+				}
+				rs["AddedState"] = []lexer.Rule{{Name: "X", Pattern: "x"}}
+				if j4, err := json.Marshal(def2); err != nil {
+					c.Violation("", key0, "json.Marshal(definition) failed after the caller edited the rule map it had passed to New: "+err.Error(), detail)
+				} else if d4, err := c16Roundtrip(j4); err != nil {
+					c.Violation("", key0, "definition JSON does not build after the caller edited the rule map it had passed to New: "+err.Error()+" | json: "+trunc(string(j4), 300), detail)
+				} else {
+					variants = append(variants, variant{"definition-after-the-caller-edited-its-rule-map", d4})
+				}
+			}
+		}
 		names := symNames(def)
 		for _, v := range variants {
 			if !reflect.DeepEqual(def.Symbols(), v.def.Symbols()) {
